@@ -8,7 +8,7 @@ CONF = {
              '(waiting for a token / blocked on the full 1000-slot channel / gone) before each action. Families: pull '
              'only; channel with immediate consumer; gated reads + slow consumer + second PacketsCtx call; cancel before '
              'start / mid-history / with the producer blocked in the send on a full channel (>1000 tiny packets); '
-             'free-running cancel races (projected observation, oracle only for order/close/leak). Compared per op: '
+             'free-running cancel races (projected observation, oracle only for order/close/leak); exhaustive small scope: every history over 6 letters (2 packets, timeout, transient, UnexpectedEOF, wrapped EOF) up to depth 2 (quick) / 4 (thorough) x 3 source kinds x 4 scripts. Compared per op: '
              'NextPacket result (bytes, capture info, truncated / error identity), start outcome (ok|panic), number of '
              'source reads completed, channel length, received packets, closed flag, goroutine count back to baseline, '
              'and the bytes of every delivered packet re-read at the end. A packet whose read returned after the cancel '
